@@ -29,10 +29,19 @@ pub fn run(o: &Opts) -> Res<()> {
         "maint" => {
             let peers = o.num("peers", 3) as usize;
             let hours = o.num("minutes", 60);
-            run_scenario(&out, seed, move |net| maintenance(net, seed, peers, hours))?
+            let mask = o.num("mask", seed);          // bit i set: peer i (i > 0) goes silent at some time
+            let given_all = o.num("given", seed % 2) == 1;
+            let sendfail = o.num("sendfail", 0) == 1;
+            run_scenario(&out, seed, move |net| maintenance(net, seed, peers, hours, mask, given_all, sendfail))?
         }
         "boot" => run_scenario(&out, seed, move |net| bootstrap_scn(net, seed))?,
         "early" => run_scenario(&out, seed, move |net| early_search(net, seed))?,
+        "e2e" => {
+            let nn = o.num("n", 3) as usize;
+            let long = o.num("long", 0) == 1;
+            let full = o.num("full", 0) == 1;
+            run_scenario(&out, seed, move |net| e2e(net, seed, nn, long, full))?
+        }
         "flood" => {
             let corpus = o.req("corpus")?.to_owned();
             run_scenario(&out, seed, move |net| flood(net, seed, corpus))?
@@ -407,7 +416,7 @@ async fn lookup(net: Net, seed: u64, kind: String, n: usize) {
 
 /// C11 / C18: one real node and `npeers` scripted contacts, each always answering or going silent at some time; the node's
 /// contacts are sampled every 5 virtual seconds for `minutes` minutes, with and without interleaved searches.
-async fn maintenance(net: Net, seed: u64, npeers: usize, minutes: u64) {
+async fn maintenance(net: Net, seed: u64, npeers: usize, minutes: u64, mask: u64, given_all: bool, sendfail: bool) {
     let mut rng = StdRng::seed_from_u64(seed);
     let my_id = rand_id(&mut rng);
     let mut nodes = oracle_universe(&mut rng, npeers, false, None);
@@ -419,7 +428,7 @@ async fn maintenance(net: Net, seed: u64, npeers: usize, minutes: u64) {
     let mut plan = vec![];
     for (i, vn) in nodes.iter_mut().enumerate() {
         // partition into always-answering and going-silent-at-t; keep the first contact answering so that bootstrap can succeed
-        let silent = i > 0 && (seed >> i) & 1 == 1;
+        let silent = i > 0 && (mask >> i) & 1 == 1;
         if silent {
             let t = match (seed + i as u64) % 5 { 0 => 10_000, 1 => 14 * 60_000 + 58_000, 2 => 15 * 60_000, 3 => horizon / 2, _ => rng.gen_range(20_000..horizon.max(40_000)) };
             vn.mode = Mode::SilentFrom(t);
@@ -436,7 +445,12 @@ async fn maintenance(net: Net, seed: u64, npeers: usize, minutes: u64) {
     net.log(json!({"ev":"Universe","nodes":oracle.lock().unwrap().universe_json()}));
     net.add_scripted(&addrs, Box::new(oracle.clone()));
     // the node is given one or all contacts; the others it learns by hearsay from the first (which names the closest 8)
-    let given: Vec<SocketAddr> = if seed % 2 == 0 { vec![addrs[0]] } else { addrs.clone() };
+    let given: Vec<SocketAddr> = if given_all { addrs.clone() } else { vec![addrs[0]] };
+    if sendfail {
+        // datagrams towards the last contact cannot be sent at all (it is only known by hearsay)
+        let bad = *addrs.last().unwrap();
+        net.with(|n| { n.send_fail.insert(bad); });
+    }
     let dht = start_node(&net, &NodeCfg { addr: me, id: Some(my_id), read_only: seed % 3 == 0, announce_port: None, nodes: given, routers: vec![] });
     net.log(json!({"ev":"Plan","node":addr_json(&me),"peers":plan}));
     let _ = wait_bootstrapped(&net, &dht, me, 1).await;
@@ -604,5 +618,78 @@ async fn early_search(net: Net, seed: u64) {
     let _ = tokio::time::timeout(std::time::Duration::from_secs(120), twin).await;
     sleep_ms(5000).await;
     api_state(&net, &dht, me).await;
+    net.log(json!({"ev":"End"}));
+}
+
+
+/// C01: N real serving nodes that all know each other; announcing searches and plain searches in every order, separated by
+/// virtual-time gaps from seconds to more than 24 hours.  Recorded in projection mode.
+async fn e2e(net: Net, seed: u64, n: usize, long: bool, full: bool) {
+    let mut rng = StdRng::seed_from_u64(seed);
+    let v6net = seed % 3 == 2;
+    net.with(|nn| { nn.rec.projection = !full; nn.faults.max_latency_ms = 1000; });
+    net.log(json!({"ev":"Scenario","coop":false,"kind":"e2e"}));
+    let addrs: Vec<SocketAddr> = (0..n).map(|i| if v6net { v6(100 + i as u16, 7000 + i as u16) } else { v4(10, 0, 1, i as u8 + 1, 7000 + i as u16) }).collect();
+    // ids: random, or adversarial (all in one bucket of each other / differing only in the last bits)
+    let base = rand_id(&mut rng);
+    let ids: Vec<Id> = (0..n).map(|i| match seed % 4 { 1 => { let mut x = base; x[19] = i as u8; x } 3 => { let mut x = base; x[0] ^= (i as u8) << 3; x[5] = rng.gen(); x } _ => rand_id(&mut rng) }).collect();
+    let mut dhts = vec![];
+    for i in 0..n {
+        let others: Vec<SocketAddr> = addrs.iter().enumerate().filter(|(j, _)| *j != i).map(|(_, a)| *a).collect();
+        let aport = if (seed >> i) & 1 == 1 { Some(40000 + i as u16) } else { None };
+        dhts.push(start_node(&net, &NodeCfg { addr: addrs[i], id: Some(ids[i]), read_only: false, announce_port: aport, nodes: others, routers: vec![] }));
+    }
+    for (i, d) in dhts.iter().enumerate() {
+        let _ = tokio::time::timeout(std::time::Duration::from_secs(900), wait_bootstrapped(&net, d, addrs[i], i as u64 + 1)).await;
+    }
+    sleep_ms(20_000).await; // everybody has heard from everybody
+    let hashes = [rand_id(&mut rng), rand_id(&mut rng)];
+    let mut sid = 0u64;
+    let gaps_short: [u64; 8] = [1_000, 5_000, 60_000, 600_000, 1_260_000, 1_800_000, 3_600_000, 7_200_000];
+    let script_len = if long { 8 } else { 14 };
+    for step in 0..script_len {
+        let ih = hashes[if step % 5 == 4 { 1 } else { 0 }];
+        let who = rng.gen_range(0..n);
+        let announce = step == 0 || rng.gen_range(0..3) == 0;
+        sid += 1;
+        let h = search(&net, &dhts[who], addrs[who], sid, ih, announce);
+        if rng.gen_bool(0.3) {
+            // a concurrent search from another node
+            let other = (who + 1 + rng.gen_range(0..n - 1)) % n;
+            sid += 1;
+            let h2 = search(&net, &dhts[other], addrs[other], sid, ih, false);
+            let _ = tokio::time::timeout(std::time::Duration::from_secs(300), h2).await;
+        }
+        let _ = tokio::time::timeout(std::time::Duration::from_secs(300), h).await;
+        // the announces sent at the end of the search are under way for less than a second
+        sleep_ms(if step % 4 == 1 { 200 } else { 1100 }).await;
+        // every other node searches as well
+        if step % 3 == 0 {
+            for j in 0..n {
+                if j != who {
+                    sid += 1;
+                    let hj = search(&net, &dhts[j], addrs[j], sid, ih, false);
+                    let _ = tokio::time::timeout(std::time::Duration::from_secs(300), hj).await;
+                }
+            }
+        }
+        let gap = if long {
+            *[3_600_000u64, 23 * 3_600_000 + 59 * 60_000, 24 * 3_600_000 + 60_000, 25 * 3_600_000, 600_000, 12 * 3_600_000].get(step % 6).unwrap()
+        } else {
+            gaps_short[rng.gen_range(0..gaps_short.len())]
+        };
+        sleep_ms(gap).await;
+    }
+    // final round: everybody searches both hashes
+    for j in 0..n {
+        for ih in hashes {
+            sid += 1;
+            let hj = search(&net, &dhts[j], addrs[j], sid, ih, false);
+            let _ = tokio::time::timeout(std::time::Duration::from_secs(300), hj).await;
+        }
+    }
+    for (i, d) in dhts.iter().enumerate() {
+        api_state(&net, d, addrs[i]).await;
+    }
     net.log(json!({"ev":"End"}));
 }
